@@ -13,6 +13,8 @@ from .rules import mt as MT
 from .rules import scan as SC
 from .rules import ok as OK
 from .rules import struct as ST
+from .rules import more as MO
+from .rules import rx as RX
 
 TRUST = ('trusted: the CPython parser (ast), the callee resolver of sa/model.py (receiver roles, '
          'unique method names), Python list/str/re semantics as encoded in the rules; ')
@@ -83,6 +85,21 @@ prop('C04',
      'summaries, parameter obligations moved to call sites',
      'DESIGN.md 3.1, 4 C04')
 
+prop('C05',
+     [MO.ac1, MO.ac2, PD.pd4, PD.pd3],
+     'enabling invariants of the line-removal pass: every vanishing construct leaves an action '
+     'token (or a paragraph token / visible text) on every path and substituted arguments are '
+     'bracketed by action tokens (AC1); the skip-space set excludes paragraph tokens (AC2); a '
+     'shortened token advances its position by what was removed, only if unpinned (PD4, PD3)',
+     'decides only the two preconditions the blank-line algorithm relies on and the position '
+     'bookkeeping of shortened tokens; NOT decided: the line-removal algorithm itself and the '
+     'comment scanner over all layouts - the bulk of the property. A pass of this check does '
+     'not show C05',
+     '',
+     'static analysis: must-contain-action summaries over return expressions with reaching '
+     'definitions; class-set check of Buffer.is_space',
+     'DESIGN.md 3.8 (AC1, AC2), 4 C05')
+
 prop('C06',
      [T.sp1, T.sp2, T.sp3, T.ix4, MI.pd0, SC.sp4, SC.pd6],
      'static table and dispatch rules: the special-sequence table equals the documented one '
@@ -99,7 +116,7 @@ prop('C06',
      'DESIGN.md 3.8 (SP1-SP3), 3.6 (IX4), 4 C06')
 
 prop('C07',
-     [SC.pd6, T.ix4, ST.at1],
+     [SC.pd6, T.ix4, ST.at1, MO.ix2s, MO.ix6, MI.tx1],
      'progress of the scanner on every path (PD6: the scan position strictly increases, with '
      'bounds of next()/find() results), well-formed tables (IX4)',
      'decides termination of the scanner and table well-formedness; further index-safety rules '
@@ -154,7 +171,7 @@ prop('C11',
      'DESIGN.md 3.8 (MT1-MT5), 4 C11')
 
 prop('C12',
-     [LS.ls1_ml, MI.ml6, MI.lc1],
+     [LS.ls1_ml, MO.ml2, MI.ml6, MI.lc1, ST.ex1, OK.ok4],
      'text and map of every language section stay in lock step through sectioning, joining '
      'and placeholder insertion (LS1m)',
      'decides only the lock-step clause of C12 so far',
@@ -164,7 +181,7 @@ prop('C12',
      'DESIGN.md 3.2, 4 C12')
 
 prop('C13',
-     [LS.ls1, AB.ab3],
+     [LS.ls1, AB.ab3, RX.rp1],
      'equal lengths after substitution for every combination of shorter / equal / longer '
      'replacement (LS1 on substitute and replace_phrases)',
      'decides the equal-length clause; more clauses follow',
@@ -203,7 +220,7 @@ prop('C15',
      'DESIGN.md 3.4, 3.2 (AB2), 4 C15')
 
 prop('C16',
-     [TH.th1, TH.th2],
+     [TH.th1, TH.th2, MO.ln1],
      'escaping exactly once for all sources the property names, by a three-valued taint '
      '(raw / escaped-or-markup / mixed) through concatenations, helper functions, re.sub '
      'callbacks and result tuples; protect_html checked as a table (TH1); each match '
@@ -245,6 +262,23 @@ prop('C19',
      'static analysis: guard-fact dominance at every recording site incl. helper functions '
      'and companion containers, literal math flags at call sites',
      'DESIGN.md 3.8 (UK1-UK4), 4 C19')
+
+prop('C20',
+     [RX.ck1, RX.ck4, RX.ck5, RX.ab4],
+     'single-letter scan pattern has width 1 between word boundaries and letters only, accepted '
+     'patterns are literal, the suppression test is beg <= position < end with the right '
+     'strictness, offset and length come from one match (CK1); the equation-punctuation pattern '
+     'allows an optional , ; : in the look-ahead and before a word (CK4); the placeholder '
+     'alternation comes from the maths collections only (CK5); the context excerpt marks the '
+     'flagged characters (AB4)',
+     'decides width / anchoring / structure of the scan patterns (regex AST) and the excerpt '
+     'arithmetic; not decided: the equation-punctuation pattern over all texts (regular-language '
+     'reasoning beyond structure)',
+     'Python re semantics; patterns are partially evaluated with a hole for the placeholder '
+     'alternation',
+     'static analysis: regular-expression ASTs (re._parser) of partially evaluated pattern '
+     'strings, comparison-strictness census, symbolic excerpt arithmetic',
+     'DESIGN.md 3.8 (CK1-CK3), 3.2 (AB4), 4 C20')
 
 prop('C17',
      [PS.ps1, PS.ps2, PS.ps3],
